@@ -1,5 +1,6 @@
 """C02 Repetition bounds (`times`) are honoured exactly."""
 import copy
+import gen, impl
 import gen_rules, patdiff
 from props.common_pat import run_cases, blob_tagger, finding_reproduces, replay  # noqa: F401
 
@@ -82,6 +83,30 @@ def nested_times_gap(g):
     return doc, insts, "nested-times-%s" % ("multiple" if total % nn == 0 and p * nn <= total <= q * nn else "gap")
 
 
+def large_bounds(ctx, n):
+    """bounds around and above 1000 (`{min: 2, max: 1000}` is how "at least two" is written - the DSL has no open range):
+    the lower bound still holds and an upper bound above 1000 is still an upper bound, in both spellings of `times`"""
+    g, rep = ctx.g, ctx.report
+    for _ in range(n):
+        a, b = g.pick([(2, 1000), (1, 1000), (3, 1500), (1, 1200), (2, 999), (2, 1001), (0, 1000), (5, 2000)])
+        x = g.pick(["nop", "inc", "dec"])
+        item = g.pick([{x: {"times": {"min": a, "max": b}}}, {x: ["%rax"], "times": {"min": a, "max": b}},
+                       {"$or": [x, "hlt"], "times": {"min": a, "max": b}}])
+        r = g.pick([0, 1, max(a - 1, 0), a, a + 1, 7] + ([1100, b, b + 1] if b > 1000 and g.chance(0.5) else []))
+        insts = ([("10000", "push", ["%rbp"])] + [("%x" % (0x10001 + i), x, ["%rax"]) for i in range(r)] +
+                 [("%x" % (0x10001 + r), "ret", [])])
+        doc = {"pattern": ["push", item, "ret"]}
+        text = gen.render_listing(insts, g)
+        got = impl.run_op(ctx.scratch, doc, text, mode="first", ret="bool")
+        exp = a <= r <= b
+        case = {"rule": doc, "run_length": r, "listing": text if r < 50 else text[:600] + "... (%d x %s)" % (r, x)}
+        rep.case(case, got[0] == "ok", tags=["large-bounds", "in" if exp else "out"])
+        if got != ("ok", exp):
+            rep.violate("bounds-around-1000", case, {"found": exp}, {"found": got}, model_agrees_with_spec=None)
+        if rep.has_new() and ctx.tier == "thorough":
+            return
+
+
 def all_optional(ctx, n):
     """a rule all of whose items may be absent (`min: 0`, `times: 0`) is found on every listing, in every way of asking:
     the run of length 0 is within the bounds"""
@@ -108,6 +133,7 @@ def all_optional(ctx, n):
 def run(ctx, factor):
     rep = ctx.report
     all_optional(ctx, ctx.budget(16, 300) * factor)
+    large_bounds(ctx, ctx.budget(24, 400) * factor)
     for it in range(ctx.budget(50, 1000) * factor):
         doc, insts, tag = same_group_twice(ctx.g) if it % 5 < 3 else nested_times_gap(ctx.g)
         o = patdiff.observe(ctx, doc, insts, modes=("bool", "all", "first"))
